@@ -23,9 +23,14 @@ func NewImportExpr(scanner parser.Scanner, imported rel.Expr, path string) Impor
 	}
 }
 
-func (i ImportExpr) Eval(ctx context.Context, _ rel.Scope) (rel.Value, error) {
+func (i ImportExpr) Eval(ctx context.Context, scope rel.Scope) (rel.Value, error) {
 	//TODO: evaluate accessed imports to avoid re-evaluation
-	return i.importedExpr.Eval(ctx, rel.EmptyScope)
+	// The imported code sees none of the importer's variables, but the same standard library.
+	imported := rel.EmptyScope
+	if stdlib, found := scope.Get("//"); found {
+		imported = imported.With("//", stdlib)
+	}
+	return i.importedExpr.Eval(ctx, imported)
 }
 
 func (i ImportExpr) String() string {
